@@ -161,7 +161,8 @@ def check_qfree_pairing(ctx):
     ctx.anchor("C09.F", "call sites freeing a handle's id", pairs, 2)
     # the handle's active flag is what the memory manager's list reflects
     for meth, call in (("_activate", "activate_qubit"), ("_deactivate", "deactivate_qubit")):
-        f2 = qc.methods.get(meth)
+        r2 = repo.lookup(qc, meth)   # (through the MRO: the handle's activation may live in a base class of Qubit)
+        f2 = r2[1] if r2 is not None else None
         ok = f2 is not None and any(A.call_name(x) == call and len(x.args) == 1 and A.norm(x.args[0]) == "self" for x in A.calls_in(f2))
         ctx.check("C09.F", f"Qubit.{meth}:updates-active-list", ok, f"Qubit.{meth} does not {call}(self) on the connection's memory manager", qc.loc(f2) if f2 else "", trivial=True)
     st_ = qc.setters.get("active")
@@ -258,30 +259,9 @@ def check_peephole(ctx):
 def check_relocation(ctx):
     repo, ev = ctx.repo, ctx.ev
     b = repo.get_class(B, "Builder")
-    fu = b.methods.get("_build_cmds_free_up_qubit_location")
-    mv = b.methods.get("_build_cmds_move_qubit")
-    if fu is None or mv is None:
-        raise AnalysisError("relocation functions not found")
-    ctx.fn("Builder._build_cmds_free_up_qubit_location")
-    ctx.fn("Builder._build_cmds_move_qubit")
-    d = A.single_defs(fu)
-    newv = [k for k, v in d.items() if A.norm(v) == "self._mem_mgr.get_new_qubit_address()"]
-    ok = len(newv) == 1
-    ren = [st for st in ast.walk(fu) if isinstance(st, ast.Assign) and isinstance(st.targets[0], ast.Attribute) and st.targets[0].attr == "qubit_id"]
-    ok = ok and len(ren) == 1 and A.norm(ren[0].value) == newv[0]
-    # the rename is outside the peephole if/else (both paths) and inside `if q.qubit_id == virtual_address`
-    if ok:
-        tests = [A.norm(t) for t, pol in G.path_conditions(fu, ren[0]) if pol]
-        anyt = [A.norm(t) for t, pol in G.path_conditions(fu, ren[0])]
-        h = A.norm(ren[0].targets[0].value)
-        ok = (f"{h}.qubit_id==virtual_address" in tests or f"virtual_address=={h}.qubit_id" in tests) and not any("pending_commands" in t for t in anyt)
-    ctx.check("C09.M", "_build_cmds_free_up_qubit_location:handle-renamed-on-both-paths", ok, "after relocating, the handle that occupied the address is not renamed to the new (unused) address on every path", b.loc(fu))
-    mvcalls = [c for c in A.calls_in(fu) if A.is_self_attr(c.func, "_build_cmds_move_qubit")]
-    ok = len(mvcalls) == 1 and A.norm(A.kwargs_of(mvcalls[0]).get("source", ast.Constant(value=0))) == "virtual_address" and newv and A.norm(A.kwargs_of(mvcalls[0]).get("target", ast.Constant(value=0))) == newv[0]
-    ctx.check("C09.M", "_build_cmds_free_up_qubit_location:moves-old-to-new", ok, "the relocation does not move the state from the occupied address to the new one", b.loc(fu))
-    order = [(A.call_name(c), [A.norm(a) for a in c.args]) for c in sorted(A.calls_in(mv), key=lambda c: c.lineno) if A.call_name(c) in ("_build_cmds_new_qubit", "_build_cmds_two_qubit", "_build_cmds_qfree")]
-    want = [("_build_cmds_new_qubit", ["target"]), ("_build_cmds_two_qubit", ["GenericInstr.MOV", "source", "target"]), ("_build_cmds_qfree", ["source"])]
-    ctx.check("C09.M", "_build_cmds_move_qubit:alloc-target-move-free-source", order == want, f"move emits {order}; expected allocate target, mov source->target, free source", b.loc(mv), sample={"sequence": order})
+    # (what relocation emits and how it renames the handle - new id allocated, state moved, old id freed, handle renamed on every
+    # path, the rewrite of an already emitted `set` only for the relocated address - is decided by the NV histories of C09.H: a
+    # relocation that leaves host and controller out of step faults on the controller or breaks the agreement after the flush)
     # lowest unused id: the method is executed abstractly (nqsa/circuit.py) on memory managers holding handles with given ids
     from .. import circuit as C
     mm = repo.get_class("netqasm.sdk.memmgr", "MemoryManager")
@@ -573,7 +553,6 @@ def run(ctx):
     check_qfree_pairing(ctx)
     check_new_handle_ids(ctx)
     check_handles(ctx)
-    check_peephole(ctx)
     check_relocation(ctx)
     c13.check_alloc_guards(ctx, "C09.X")
     # the controller's "is this virtual qubit allocated?" test decides whether an arriving pair may take the id (shared with C12.B)
@@ -600,10 +579,10 @@ SEEDS = [
     dict(id="c09-orig-post-loop-handle", file=BF, expect="C09.L", construct="post_loop", old="            params.post_routine(self, q, pair_future)\n            # The handle only exists for the duration of the post routine.\n            q.active = False\n", new="            params.post_routine(self, q, pair_future)\n"),
     dict(id="c09-orig-context-handles", file=BF, expect="C09.L", construct="", old="        # The qubits of the pairs can only be used inside the context.\n        for q in qubits:\n            q.active = False\n", new=""),
     dict(id="c09-context-only-future", file=BF, expect="C09.L", construct="_pre_epr_context", old="        return pre_commands, loop_register, ent_results_array, q, pair, qubit_futures + [q]\n", new="        return pre_commands, loop_register, ent_results_array, q, pair, [q]\n"),
-    dict(id="c09-orig-peephole", file=BF, expect="C09.P", construct="rewrite", old="                        and pending_commands[-3].operands[1] == virtual_address  # type: ignore\n", new=""),
-    dict(id="c09-rename-one-path", file=BF, expect="C09.M", construct="handle-renamed", old="                        self._build_cmds_move_qubit(\n                            source=virtual_address, target=new_virtual_address\n                        )\n                    # From now on, the original qubit should be referred to with the new virtual address.\n                    q.qubit_id = new_virtual_address",
+    dict(id="c09-orig-peephole", file=BF, expect="C09.H", construct="", old="                        and pending_commands[-3].operands[1] == virtual_address  # type: ignore\n", new=""),
+    dict(id="c09-rename-one-path", file=BF, expect="C09.H", construct="", old="                        self._build_cmds_move_qubit(\n                            source=virtual_address, target=new_virtual_address\n                        )\n                    # From now on, the original qubit should be referred to with the new virtual address.\n                    q.qubit_id = new_virtual_address",
          new="                        self._build_cmds_move_qubit(\n                            source=virtual_address, target=new_virtual_address\n                        )\n                        # From now on, the original qubit should be referred to with the new virtual address.\n                        q.qubit_id = new_virtual_address"),
-    dict(id="c09-move-no-free", file=BF, expect="C09.M", construct="_build_cmds_move_qubit", old="        self._build_cmds_two_qubit(GenericInstr.MOV, source, target)\n        self._build_cmds_qfree(source)", new="        self._build_cmds_two_qubit(GenericInstr.MOV, source, target)"),
+    dict(id="c09-move-no-free", file=BF, expect="C09.H", construct="", old="        self._build_cmds_two_qubit(GenericInstr.MOV, source, target)\n        self._build_cmds_qfree(source)", new="        self._build_cmds_two_qubit(GenericInstr.MOV, source, target)"),
     dict(id="c09-new-id", file="netqasm/sdk/memmgr.py", expect="C09.M", construct="get_new_qubit_address", old="        for address in count(0):\n            if address not in qubit_addresses_in_use:", new="        for address in count(1):\n            if address not in qubit_addresses_in_use:"),
     dict(id="c09-consecutive-ids", file=BF, expect="C09.H", construct="", old="                    virtual_address=virt_id,\n", new="                    virtual_address=virt_id if sequential else self._mem_mgr.get_new_qubit_address() + i,\n"),
     dict(id="c09-nv-no-relocation", file=BF, expect="C09.H", construct="", old="            # NV: only ID 0 can be used for entanglement\n            self._build_cmds_free_up_qubit_location(0)\n", new="            # NV: only ID 0 can be used for entanglement\n"),
